@@ -6,6 +6,7 @@ import HaqqModel.Driver.C12
 import HaqqModel.Driver.C09
 import HaqqModel.Driver.C17
 import HaqqModel.Driver.C13
+import HaqqModel.Driver.C11
 
 open Haqq.Driver
 
@@ -20,6 +21,7 @@ def stepLine (st : All) (line : String) : All × String :=
   | "C12" :: rest => let (s, o) := C12.step st.c12 rest; ({ st with c12 := s }, o)
   | "C09" :: rest => let (s, o) := C09.step st.c09 rest; ({ st with c09 := s }, o)
   | "C17" :: rest => (st, C17.step rest)
+  | "C11" :: rest => (st, C11.step rest)
   | "C13" :: rest => let (s, o) := C13.step st.c13 rest; ({ st with c13 := s }, o)
   | _ => (st, "bad-op")
 
